@@ -257,6 +257,7 @@ func c16CheckHdr(c c16HdrCase) engine.Result {
 	var stream [5 + 188]byte
 	var sr ref.ScriptedReader
 	br := bufio.NewReaderSize(&sr, 16)
+	brBig := bufio.NewReaderSize(&sr, 4096)
 	stream[0], stream[1], stream[2] = 0x00, 0x47, byte(c.B1)
 	copy(stream[5:], c16NullPacket[:])
 	cur := stream[:]
@@ -285,6 +286,10 @@ func c16CheckHdr(c c16HdrCase) engine.Result {
 				sr.Reset(cur)
 				br.Reset(&sr)
 				c16Run(&res, br, &sr, cur, at, c16Class(at, falseSyncs, cut), desc)
+				// the same header through a buffer larger than a packet (bulk paths see the whole packet at once)
+				sr.Reset(cur)
+				brBig.Reset(&sr)
+				c16Run(&res, brBig, &sr, cur, at, c16Class(at, falseSyncs, cut), desc)
 				if len(res.Fail) > 8 {
 					return
 				}
@@ -317,8 +322,25 @@ func c16CheckLong(c c16LongCase) engine.Result {
 			s = append(s, []byte{0x47, 0x00, 0x11, 0x00, 0x00}[i%5])
 		case 2: // runs of sync bytes whose "headers" carry reserved PIDs
 			s = append(s, []byte{0x47, 0x00, 0x05, 0x10, 0x47, 0x47, 0x00}[i%7])
+		case 4: // 0xFF with one stray sync byte right before the first packet (rejected: the packet header behind it reads as afc 00)
+			if i == c.Lead-1 {
+				s = append(s, 0x47)
+			} else {
+				s = append(s, 0xFF)
+			}
 		default: // pseudo-random bytes without plausible headers are not guaranteed: let the reference decide
 			s = append(s, byte((i*131+c.Lead)%251))
+		}
+	}
+	if c.Kind == 4 {
+		// 60 PAT-PID packets (47 00 00 1x): more stream behind the header than any buffer size used
+		for k := 0; k < 60; k++ {
+			var p [188]byte
+			for i := range p {
+				p[i] = byte(0x80 + (i+k)%0x40)
+			}
+			p[0], p[1], p[2], p[3] = 0x47, 0x00, 0x00, 0x10|byte(k&0xF)
+			s = append(s, p[:]...)
 		}
 	}
 	s = append(s, c16NullPacket[:]...)
@@ -417,7 +439,7 @@ func init() {
 			},
 			&engine.Enum[c16HdrCase]{
 				Name: "sync-every-header",
-				Rule: "stream 00 47 b1 b2 b3 + a 188-byte null packet for every b1, b2 in 0..255 and b3 from 16 values covering every afc and scrambling value (thorough: every b3; case = b1, Check loops b2,b3), bufio size 16, whole-stream reads: offset 1 iff afc!=0 and PID outside 4..15 per the reference header parser, otherwise the next plausible position of the reference scan (normally the null packet at 5); reader position as above; non-trivial = candidate header that must be rejected",
+				Rule: "stream 00 47 b1 b2 b3 + a 188-byte null packet for every b1, b2 in 0..255 and b3 from 16 values covering every afc and scrambling value (thorough: every b3; case = b1, Check loops b2,b3), bufio sizes 16 and 4096, whole-stream reads: offset 1 iff afc!=0 and PID outside 4..15 per the reference header parser, otherwise the next plausible position of the reference scan (normally the null packet at 5); reader position as above; non-trivial = candidate header that must be rejected",
 				Gen: func(r *engine.Run, emit func(c16HdrCase)) {
 					for b1 := 0; b1 < 256; b1++ {
 						emit(c16HdrCase{B1: b1, Full: r.Thorough()})
@@ -427,7 +449,7 @@ func init() {
 			},
 			&engine.Enum[c16LongCase]{
 				Name: "sync-long-leads",
-				Rule: "leads of N bytes for N in 0..40, 180..200, 4080..4110, 8185..8200 and 70000 (thorough: every N in 0..9000) of 4 kinds (0xFF only; a reserved-afc false sync every 5 bytes; runs of sync bytes with reserved PIDs; pseudo-random) followed by two null packets, through bufio sizes {16, 4096, 65536} over readers handing out everything / 1000 bytes per call: the first plausible header lies far beyond the buffer size and, for the false-sync kinds, thousands of rejected candidates precede it; oracle as in sync-all-strings",
+				Rule: "leads of N bytes for N in 0..40, 180..200, 1490..1506, 4080..4110, 8185..8200 and 70000 (thorough: every N in 0..9000) of 5 kinds (0xFF only; a reserved-afc false sync every 5 bytes; runs of sync bytes with reserved PIDs; pseudo-random; 0xFF with one stray sync byte right before the first of 60 PAT-PID packets) followed by two null packets, through bufio sizes {16, 1500, 4096, 65536} over readers handing out everything / 1000 bytes per call: the first plausible header lies far beyond the buffer size and, for the false-sync kinds, thousands of rejected candidates precede it; oracle as in sync-all-strings",
 				Gen: func(r *engine.Run, emit func(c16LongCase)) {
 					var leads []int
 					if r.Thorough() {
@@ -436,9 +458,12 @@ func init() {
 						leads = append(append(append(seq(0, 40), seq(180, 200)...), seq(4080, 4110)...), seq(8185, 8200)...)
 					}
 					leads = append(leads, 70000)
+					if !r.Thorough() {
+						leads = append(leads, seq(1490, 1506)...)
+					}
 					for _, n := range leads {
-						for k := 0; k < 4; k++ {
-							for _, b := range []int{16, 4096, 65536} {
+						for k := 0; k < 5; k++ {
+							for _, b := range []int{16, 1500, 4096, 65536} {
 								for _, ch := range []int{0, 1000} {
 									emit(c16LongCase{n, k, b, ch})
 								}
